@@ -30,6 +30,7 @@ class Rec:
     def __init__(self, exists):
         self.exists = exists
         self.paths = []      # (operation, path)
+        self.replaced = []   # (temporary name, final name) of every os.replace
         self.kw = []
 
     # --- os
@@ -70,8 +71,18 @@ class RecOS:
     def remove(self, p):
         self.rec.paths.append(("remove", p))
 
+    def replace(self, a, b):
+        self.rec.replaced.append((a, b))
+        self.rec.paths.append(("write", b))        # what ends up under the final name
+
 
 class RecPath:
+    import posixpath as _pp
+
+    join = staticmethod(_pp.join)
+    dirname = staticmethod(_pp.dirname)
+    basename = staticmethod(_pp.basename)
+
     def __init__(self, rec):
         self.rec = rec
 
@@ -207,8 +218,14 @@ def body_names(E, name, eng, exists):
         h.delete_ds()
         if not rec.paths:
             return False
+        temps = [a for a, _ in rec.replaced]
         for op, p in rec.paths:
+            if op == "write" and any(p == t for t in temps):
+                continue                 # written under a temporary name, then moved onto the final name
             if p != W:
+                return False
+        for a, b in rec.replaced:
+            if b != W or a == W:
                 return False
         # the operations really happened
         ops = [op for op, _ in rec.paths]
